@@ -287,6 +287,9 @@ impl BackupManager {
         // Copy .ndb file
         self.copy_ndb_file(handle)?;
 
+        #[cfg(nervusdb_verif)]
+        crate::verif_io::point("backup:between_copies");
+
         // Copy .wal file (from checkpoint position)
         self.copy_wal_file(handle)?;
 
